@@ -5,7 +5,10 @@ Transcribes
 * `src/onnx_ir/_convenience/_extractor.py` 16-39 (`_collect_all_external_values`, with the D47 fix), 42-132
   (`_find_subgraph_bounded_by_values`: backward walk, frontier validation, sort by original index),
   130-191 (`extract`: name resolution, ownership check, view construction, clone of the view);
-* `src/onnx_ir/_convenience/__init__.py` 456-509 (`create_value_mapping`, `include_subgraphs=False`);
+* `src/onnx_ir/_convenience/__init__.py` 471-525 (`create_value_mapping`, `include_subgraphs=False`);
+  `nameCandidates` is the flat (name, value) list its lookups are proved equal to;
+* `node.attributes.values()` as both traversals read it (`AttrT`, `attrBodies`, `procAttrs`, `capturedAttrs`:
+  reference attributes skipped, GRAPH one graph, GRAPHS its members);
 * `src/onnx_ir/_cloner.py` 76-100, 162-185, 258-287 restricted to the *keys of the value map* (which
   decides whether the clone of the view raises; the structure of the clone itself is property C13);
 * `src/onnx_ir/analysis/_implicit_usage.py` 14-74 (`analyze_implicit_usage`, with the D34 fix: the analysed
@@ -312,14 +315,30 @@ def Err.pyClass : Err → String
   | .sortKey => "KeyError"
   | .cloneOuter | .cloneOutput => "RuntimeError"
 
-/-- `_find_subgraph_bounded_by_values(graph, inputs, outputs, parent_graph)`; `gnodes` is `list(graph)`.
+/-- `node_index[n]` for `node_index = {node: idx for idx, node in enumerate(graph)}` (extractor 65): a dict
+    comprehension keeps the value of the LAST pair with a given key, so a node that a `GraphView` lists
+    several times is indexed by its last position.  (`0` for a node that is not listed: never read, the code
+    raises `KeyError` there, see `findSubgraph`.) -/
+def lastIdx : List NId → NId → Nat
+  | [], _ => 0
+  | _ :: xs, n => if n ∈ xs then lastIdx xs n + 1 else 0
+
+/-- the node list with only the last occurrence of every node kept (not repository code: the order that
+    `node_index` induces, used to state the order theorems for views that repeat a node) -/
+def dedupLast : List NId → List NId
+  | [] => []
+  | x :: xs => if x ∈ xs then dedupLast xs else x :: dedupLast xs
+
+/-- `_find_subgraph_bounded_by_values(graph, inputs, outputs, parent_graph)`; `gnodes` is `list(graph)`
+    (a `Graph`, the graph of a `Function`, or the node tuple of a `GraphView`: any list, possibly a subset
+    of the nodes of the underlying graph, in another order, with repeats).
     Returns `(all_nodes, initialized_values)`. -/
 def findSubgraph (W : World) (isFunction : Bool) (gnodes : List NId) (inputs outputs : List VId)
     (parent : GId) : Except Err (List NId × List VId) :=
   let s := walk W parent (walkInit W isFunction inputs outputs)
   if (unspecified W inputs s.nodesV).isEmpty then
     if s.nodesV.all (fun n => gnodes.contains n) then
-      .ok (sortByKey (fun n => gnodes.idxOf n) s.nodesV, s.inited)
+      .ok (sortByKey (fun n => lastIdx gnodes n) s.nodesV, s.inited)
     else .error .sortKey
   else .error .unbounded
 
@@ -348,6 +367,43 @@ def valueMapping (W : World) (T : Target) : NameMap :=
   T.nodes.foldl (fun m n =>
     let nd := W.nodeD n
     nd.outputs.foldl (NameMap.setDefault W) (nd.ins.foldl (NameMap.setDefault W) m)) m1
+
+/-- the named values of a list as (name, value) pairs, in order (`None` and `""` are skipped: `if not
+    value.name: continue`) -/
+def named (W : World) (vs : List VId) : NameMap :=
+  (vs.filter (fun v => !((W.val v).name == ""))).map (fun v => ((W.val v).name, v))
+
+/-- every (name, value) pair in the order `create_value_mapping(graph, include_subgraphs=False)` meets them
+    (_convenience/__init__.py 493-525): the initializer dict, the graph inputs, then for every node of the
+    graph-like object in order its inputs and its outputs.  Not repository code: the specification side of
+    `C18_by_name_resolves` ("the first value with that name is returned"). -/
+def nameCandidates (W : World) (T : Target) : NameMap :=
+  T.inits ++ named W (T.inputs ++ T.nodes.flatMap (fun n => (W.nodeD n).ins ++ (W.nodeD n).outputs))
+
+/-- decidable hypothesis of the "unique names" clause of `C18_by_name_resolves`: a name denotes one value
+    among the initializers, inputs and top-level node inputs/outputs of the source -/
+def namesUniqueB (W : World) (T : Target) : Bool :=
+  (nameCandidates W T).all (fun kv => (nameCandidates W T).all (fun kv' => !(kv.1 == kv'.1) || kv.2 == kv'.2))
+
+/-! ## the graph-like sources of `extract` (extractor 159-164)
+
+`extract` accepts a `Graph`, a `Function` or a `GraphView`.  For a `Function` the name table, the ownership
+check and the initializers are those of `function.graph`, and iterating the function iterates that graph.
+A `GraphView` carries its own input list, initializer dict and node tuple: any node list (a strict subset
+of the nodes of the graph the values live in, another order, repeats), and it is not the `.graph` of any
+value, so boundary values given by object are not checked for ownership. -/
+inductive Source where
+  | graph (gid : GId) (inputs : List VId) (inits : NameMap) (nodes : List NId)
+  | function (gid : GId) (inputs : List VId) (inits : NameMap) (nodes : List NId)
+  | view (inputs : List VId) (inits : NameMap) (nodes : List NId)
+
+def Source.target : Source → Target
+  | .graph gid i w n => { kind := .graph, gid := some gid, inputs := i, inits := w, nodes := n }
+  | .function gid i w n => { kind := .function, gid := some gid, inputs := i, inits := w, nodes := n }
+  | .view i w n => { kind := .view, gid := none, inputs := i, inits := w, nodes := n }
+
+def Source.nodes (S : Source) : List NId := S.target.nodes
+def Source.isFunction (S : Source) : Bool := S.target.kind == Kind.function
 
 /-! ## the clone of the view, as far as it decides `raised` (_cloner.py, keys of `_value_map`) -/
 
@@ -588,6 +644,24 @@ mutual
     | chain, g :: gs => scopedGB W all chain g && scopedGsB W all chain gs
 end
 
+mutual
+  /-- the graph and every graph nested in it at any depth, in traversal order -/
+  def subsG : GraphT → List GraphT
+    | .mk gid i w o ns => (.mk gid i w o ns) :: subsNs ns
+  def subsNs : List NodeT → List GraphT
+    | [] => []
+    | n :: ns => subsN n ++ subsNs ns
+  def subsN : NodeT → List GraphT
+    | .mk _ _ bs => subsGs bs
+  def subsGs : List GraphT → List GraphT
+    | [] => []
+    | g :: gs => subsG g ++ subsGs gs
+end
+
+/-- distinct nested graphs of the analysed root carry distinct identities (in Python: they are distinct
+    objects; a graph object held by two attributes would occur twice here) -/
+def uniqueGidsB (ns : List NodeT) : Bool := nodupB ((subsNs ns).map GraphT.gid)
+
 /-! ## `analyze_implicit_usage` (analysis/_implicit_usage.py 14-74, with the D34 fix) -/
 
 /-- `implicit_usages`: dict graph -> set of values, in insertion order -/
@@ -629,5 +703,45 @@ end
 /-- `analyze_implicit_usage(graph)` -/
 def analyze (W : World) (g : GraphT) : Usages :=
   g.nodes.foldl (fun u n => procN W [g.gid] u n) []
+
+/-- `analyze_implicit_usage(x)` for any iterable of nodes `x` (a `Graph`, or a `Function`: `for node in
+    graph` only iterates, and `graph_stack[0]`, the object itself, is never compared with anything because
+    line 46 walks `graph_stack[1:]`); `root` stands for the identity of that object -/
+def analyzeNodes (W : World) (root : GId) (ns : List NodeT) : Usages :=
+  ns.foldl (fun u n => procN W [root] u n) []
+
+/-! ## graph-valued attributes as the code reads them (extractor 88-102, analysis 58-79)
+
+`node.attributes.values()` in order; a reference attribute (`RefAttr`, also of type GRAPH / GRAPHS) has no
+value and is skipped (D152); `GRAPH` contributes `as_graph()`, `GRAPHS` every graph of `as_graphs()`; any
+other attribute type contributes nothing.  `NodeT.bodies` is the result of this reading. -/
+inductive AttrT where
+  | ref                          -- `attr.is_ref()`, whatever its declared type
+  | graph (g : GraphT)           -- AttributeType.GRAPH
+  | graphs (gs : List GraphT)    -- AttributeType.GRAPHS
+  | other                        -- any other attribute type
+
+def attrBodies : List AttrT → List GraphT
+  | [] => []
+  | .ref :: as => attrBodies as
+  | .graph g :: as => g :: attrBodies as
+  | .graphs gs :: as => gs ++ attrBodies as
+  | .other :: as => attrBodies as
+
+/-- `_process_node` 58-79 on the attribute list, branch by branch -/
+def procAttrs (W : World) (stack : List GId) (u : Usages) : List AttrT → Usages
+  | [] => u
+  | .ref :: as => procAttrs W stack u as
+  | .graph g :: as => procAttrs W stack (procG W stack u g) as
+  | .graphs gs :: as => procAttrs W stack (procGs W stack u gs) as
+  | .other :: as => procAttrs W stack u as
+
+/-- extractor 88-102 on the attribute list: the captured values of every graph attribute, branch by branch -/
+def capturedAttrs (W : World) (parent : GId) : List AttrT → List VId
+  | [] => []
+  | .ref :: as => capturedAttrs W parent as
+  | .graph g :: as => externalValues W parent g ++ capturedAttrs W parent as
+  | .graphs gs :: as => gs.flatMap (externalValues W parent) ++ capturedAttrs W parent as
+  | .other :: as => capturedAttrs W parent as
 
 end IrVerif.Extract
